@@ -322,6 +322,10 @@ func mkPkgs(tier string) []Pkg {
 	mayReject = false
 	// a const group followed by declarations nothing refers to (they must still be emitted)
 	emit("special_group_then_unreferenced", []string{"const (\n\tGa uint64 = 1\n\tGb uint64 = 2\n\tGc uint64 = 3\n)", "type Box struct {\n\tv uint64\n}", "func (b *Box) Grow() {\n\tb.v = b.v + Ga\n}", "func Unused() uint64 {\n\treturn 1\n}"}, []string{"Ga", "Gb", "Gc", "Box", "Box__Grow", "Unused"})
+	// mutual recursion: no order of the two definitions works (GooseLang has no top-level mutual recursion)
+	mayReject = true
+	emit("special_mutual_recursion", []string{"func IsEven(n uint64) bool {\n\tif n == 0 {\n\t\treturn true\n\t}\n\treturn IsOdd(n - 1)\n}", "func IsOdd(n uint64) bool {\n\tif n == 0 {\n\t\treturn false\n\t}\n\treturn IsEven(n - 1)\n}"}, []string{"IsEven", "IsOdd"})
+	mayReject = false
 	// a type parameter (or a local variable, a parameter, a field) spelled like a package-level function that uses the declaration
 	emit("special_typeparam_named_as_func", []string{"func Bq[Aq any](x Aq) Aq {\n\treturn x\n}", "func Aq() uint64 {\n\treturn Bq[uint64](1)\n}"}, []string{"Bq", "Aq"})
 	emit("special_param_named_as_func", []string{"func Bp(Ap uint64) uint64 {\n\treturn Ap + 1\n}", "func Ap() uint64 {\n\treturn Bp(1)\n}"}, []string{"Bp", "Ap"})
